@@ -59,6 +59,8 @@ var zoo = []zooType{
 	{"func() int", "fnI", []string{"Thunk"}, []string{"any"}},
 	{"Box[int]", "Box[int]{V: 3}", nil, []string{"any"}},
 	{"time.Duration", "time.Duration(42)", nil, []string{"any", "fmt.Stringer"}},
+	{"sub.Num", "sub.Num(9)", nil, []string{"any", "fmt.Stringer"}},
+	{"[]sub.Pair", "[]sub.Pair{{A: 1, B: 2}}", []string{"sub.Pairs"}, []string{"any"}},
 	{"*strings.Builder", "sbI", nil, []string{"any", "io.Writer"}},
 }
 
@@ -169,6 +171,22 @@ func main() {
 }
 `
 
+const c06Sub = `package sub
+
+import "strconv"
+
+type Num int
+
+func (n Num) String() string { return strconv.Itoa(int(n)) }
+
+type Pair struct{ A, B int }
+type Pairs []Pair
+`
+
+type importerFunc func(path string) (*types.Package, error)
+
+func (f importerFunc) Import(path string) (*types.Package, error) { return f(path) }
+
 const c06Stub = `
 type lox struct{}
 type Error struct {
@@ -184,6 +202,8 @@ type c06Method struct {
 	params  []string
 	results []string
 	body    string
+	chks    [][]string // per parameter: alternative checks (one per production the method serves)
+	ret     string
 	prod    int // the production it was written for (-1 = extra)
 }
 
@@ -200,17 +220,18 @@ func genC06(r *rng) *c06Scenario {
 	plusOrStar := pick(r, []string{"+", "*"})
 	wRule := r.chance(1, 3)
 	var sb strings.Builder
-	sb.WriteString("@lexer\nTA = 'a'\nTB = 'b'\nTC = 'c'\nTD = 'd'\nTE = 'e'\nTF = 'f'\n@frag [ \\n]+ @discard\n@parser\n")
+	sb.WriteString("@lexer\nTA = 'a'\nTB = 'b'\nTC = 'c'\nTD = 'd'\nTE = 'e'\nTF = 'f'\nTG = 'g'\n@frag [ \\n]+ @discard\n@parser\n")
 	fmt.Fprintf(&sb, "@start s = x%s y? TD\n         | TE z\n", plusOrStar)
 	if wRule {
 		sb.WriteString("         | TF w\n")
 	}
-	sb.WriteString("x = TA\n  | TB TB\ny = TC\nz = @list(x, TC)\n")
+	sb.WriteString("         | TG v\n")
+	sb.WriteString("x = TA\n  | TB TB\ny = TC\nz = @list(x, TC)\nv = TD\n  | y\n")
 	if wRule {
 		sb.WriteString("w = TA+\n")
 	}
 	sc.lox = sb.String()
-	for _, rn := range []string{"s", "x", "y", "z", "w"} {
+	for _, rn := range []string{"s", "x", "y", "z", "w", "v"} {
 		sc.ruleTypes[rn] = pick(r, zoo)
 	}
 	sc.perturb = pick(r, []string{"", "", "", "", "missing", "ambiguous", "orphan", "retconflict", "tworesults", "unknownrule", "variadic"})
@@ -235,6 +256,9 @@ func checkC06(c *checkCtx) {
 		sc := genC06(c.rng)
 		s := ws.add(sc.lox)
 		s.tag = sc
+		// a sub-package of the parser package (its import path extends the parser package's path)
+		os.MkdirAll(filepath.Join(s.dir, "sub"), 0o755)
+		os.WriteFile(filepath.Join(s.dir, "sub", "sub.go"), []byte(c06Sub), 0o644)
 		scs = append(scs, sc)
 	}
 	if err := ws.dumpAll(); err != nil {
@@ -342,20 +366,35 @@ func checkC06(c *checkCtx) {
 						}
 					}
 					m.params = append(m.params, pt)
-					fmt.Fprintf(&body, "\tp.chk(%q, %d, %s, a%d)\n", m.name, i, chk(fmt.Sprintf("a%d", i), i), i)
+					m.chks = append(m.chks, []string{chk(fmt.Sprintf("a%d", i), i)})
 				}
-				fmt.Fprintf(&body, "\treturn sent_%s\n", rl.Name)
-				m.body = body.String()
+				_ = body
+				m.ret = "sent_" + rl.Name
 				methods = append(methods, m)
 			}
 		}
+		// rule v = TD | y : ONE method with an interface parameter serves both productions,
+		// whose terms have different Go types (Token and y's type)
+		var keep []c06Method
+		for _, m := range methods {
+			if !strings.HasPrefix(m.name, "on_v__") {
+				keep = append(keep, m)
+			}
+		}
+		keep = append(keep, c06Method{name: "on_v__shared", params: []string{"any"}, results: []string{sc.ruleTypes["v"].typ}, prod: -1,
+			body: "\tp.chk(\"on_v__shared\", 0, tokOK(a0, 5) || same(a0, sent_y), a0)\n\treturn sent_v\n"})
+		methods = keep
 		// merge methods of one rule with identical parameter lists (lox would call them ambiguous otherwise)
 		var merged []c06Method
 		for _, m := range methods {
 			dup := false
-			for _, o := range merged {
-				if strings.HasPrefix(o.name, strings.SplitN(m.name, "__", 2)[0]+"__") && strings.Join(o.params, ",") == strings.Join(m.params, ",") {
+			for k := range merged {
+				o := &merged[k]
+				if strings.HasPrefix(o.name, strings.SplitN(m.name, "__", 2)[0]+"__") && strings.Join(o.params, ",") == strings.Join(m.params, ",") && o.chks != nil && m.chks != nil {
 					dup = true
+					for i := range o.chks {
+						o.chks[i] = append(o.chks[i], m.chks[i]...)
+					}
 				}
 			}
 			if !dup {
@@ -363,6 +402,18 @@ func checkC06(c *checkCtx) {
 			}
 		}
 		methods = merged
+		for k := range methods {
+			m := &methods[k]
+			if m.chks == nil {
+				continue
+			}
+			var body strings.Builder
+			for i, alts := range m.chks {
+				fmt.Fprintf(&body, "\tp.chk(%q, %d, %s, a%d)\n", m.name, i, strings.Join(alts, " || "), i)
+			}
+			fmt.Fprintf(&body, "\treturn %s\n", m.ret)
+			m.body = body.String()
+		}
 		// perturbation
 		switch sc.perturb {
 		case "missing":
@@ -391,7 +442,7 @@ func checkC06(c *checkCtx) {
 			}
 		}
 		var src strings.Builder
-		src.WriteString("package main\n\nimport (\n\t\"fmt\"\n\t\"io\"\n\t\"os\"\n\t\"reflect\"\n\t\"strconv\"\n\t\"strings\"\n\t\"time\"\n)\n\nvar _ io.Writer = sbI\nvar _ = time.Second\n")
+		src.WriteString("package main\n\nimport (\n\t\"fmt\"\n\t\"io\"\n\t\"os\"\n\t\"reflect\"\n\t\"strconv\"\n\t\"strings\"\n\t\"time\"\n\n\t\"ws/" + s.name + "/sub\"\n)\n\nvar _ io.Writer = sbI\nvar _ = time.Second\nvar _ = sub.Num(0)\n")
 		src.WriteString(c06Decls)
 		src.WriteString(decls.String())
 		src.WriteString(c06Runtime)
@@ -418,7 +469,19 @@ func checkC06(c *checkCtx) {
 			c.addFinding(finding{Signature: "c06-harness-source-unparsable", Desc: fmt.Sprint(err1, err2), NoInput: true, Theorem: "harness", Replay: map[string]any{"go": sc.goSrc}})
 			continue
 		}
-		conf := types.Config{Importer: importer.ForCompiler(fset, "source", nil), Error: func(error) {}}
+		srcImp := importer.ForCompiler(fset, "source", nil)
+		subPath := "ws/" + s.name + "/sub"
+		conf := types.Config{Error: func(error) {}, Importer: importerFunc(func(path string) (*types.Package, error) {
+			if path == subPath {
+				fs, err := parser.ParseFile(fset, "sub.go", c06Sub, 0)
+				if err != nil {
+					return nil, err
+				}
+				sc2 := types.Config{Importer: srcImp, Error: func(error) {}}
+				return sc2.Check(subPath, fset, []*ast.File{fs}, nil)
+			}
+			return srcImp.Import(path)
+		})}
 		pkg, _ := conf.Check("main", fset, []*ast.File{f1, f2}, nil)
 		scope := pkg.Scope()
 		tokT := scope.Lookup("Token").Type()
@@ -555,7 +618,7 @@ func checkC06(c *checkCtx) {
 			}
 			// run: sentences exercising every production
 			// TA=2 TB=3 TC=4 TD=5 TE=6
-			args := []string{"2,3,3,4,5", "6,2,4,3,3"}
+			args := []string{"2,3,3,4,5", "6,2,4,3,3", "8,5", "8,4"}
 			if strings.Contains(sc.lox, "TF w") {
 				args = append(args, "7,2,2")
 			}
